@@ -17,6 +17,8 @@ import (
 	"github.com/go-sql-driver/mysql"
 	tproto "github.com/samsarahq/thunder/internal/proto"
 	"github.com/samsarahq/thunder/internal/testfixtures"
+	amodels "github.com/samsarahq/thunder/verifharness/c13/a/models"
+	bmodels "github.com/samsarahq/thunder/verifharness/c13/b/models"
 )
 
 // ---- named scalar types ----
@@ -296,6 +298,51 @@ type tableDef struct {
 	proto interface{}
 }
 
+// modelsRowA / modelsRowB: two tables whose column types are DISTINCT named
+// types that print identically (reflect.Type.String() == "models.Status" ...):
+// same type names in two packages both called models, and two function-local
+// types both called Level. Some pairs differ in kind, some share it. Every tag
+// combination used is the same on both sides.
+func modelsRowA() interface{} {
+	type Level int8
+	type row struct {
+		Id      amodels.ID `sql:",primary"`
+		Status  amodels.Status
+		Code    amodels.Code
+		Ratio   amodels.Ratio
+		Flag    amodels.Flag
+		Count   amodels.Count
+		PStatus *amodels.Status
+		PCode   *amodels.Code
+		PRatio  *amodels.Ratio
+		NStatus amodels.Status `sql:",implicitnull"`
+		NCode   amodels.Code   `sql:",implicitnull"`
+		Level   Level
+		PLevel  *Level
+	}
+	return row{}
+}
+
+func modelsRowB() interface{} {
+	type Level string
+	type row struct {
+		Id      bmodels.ID `sql:",primary"`
+		Status  bmodels.Status
+		Code    bmodels.Code
+		Ratio   bmodels.Ratio
+		Flag    bmodels.Flag
+		Count   bmodels.Count
+		PStatus *bmodels.Status
+		PCode   *bmodels.Code
+		PRatio  *bmodels.Ratio
+		NStatus bmodels.Status `sql:",implicitnull"`
+		NCode   bmodels.Code   `sql:",implicitnull"`
+		Level   Level
+		PLevel  *Level
+	}
+	return row{}
+}
+
 var zooTables = []tableDef{
 	{"ints", intsRow{}},
 	{"scalars", scalarsRow{}},
@@ -304,4 +351,6 @@ var zooTables = []tableDef{
 	{"valuers", valuerRow{}},
 	{"users", userRow{}},
 	{"jsonbytes", jsonBytesRow{}},
+	{"models_a", modelsRowA()},
+	{"models_b", modelsRowB()},
 }
